@@ -1,0 +1,90 @@
+//! Facade over crate-private items for the external verification harness.
+//!
+//! Only compiled with `--cfg nucleo_verif`; not part of the public API and
+//! without any effect on the library when the cfg is off.
+
+use crate::chars::{AsciiChar, Char, CharClass};
+use crate::matrix::{self, MatrixLayoutInfo};
+use crate::Config;
+
+fn class_from_id(id: u8) -> CharClass {
+    match id {
+        0 => CharClass::Whitespace,
+        1 => CharClass::NonWord,
+        2 => CharClass::Delimiter,
+        3 => CharClass::Lower,
+        4 => CharClass::Upper,
+        5 => CharClass::Letter,
+        _ => CharClass::Number,
+    }
+}
+
+/// `Char::char_class` of the `char` implementation
+pub fn char_class(c: char, config: &Config) -> u8 {
+    c.char_class(config) as u8
+}
+/// `Char::char_class` of the `AsciiChar` implementation
+pub fn char_class_ascii(c: u8, config: &Config) -> u8 {
+    AsciiChar(c).char_class(config) as u8
+}
+/// `Char::char_class_and_normalize` of the `char` implementation
+pub fn class_norm(c: char, config: &Config) -> (char, u8) {
+    let (c, class) = c.char_class_and_normalize(config);
+    (c, class as u8)
+}
+/// `Char::char_class_and_normalize` of the `AsciiChar` implementation
+pub fn class_norm_ascii(c: u8, config: &Config) -> (u8, u8) {
+    let (c, class) = AsciiChar(c).char_class_and_normalize(config);
+    (c.0, class as u8)
+}
+/// `Char::normalize` of the `char` implementation
+pub fn norm(c: char, config: &Config) -> char {
+    Char::normalize(c, config)
+}
+/// `Char::normalize` of the `AsciiChar` implementation
+pub fn norm_ascii(c: u8, config: &Config) -> u8 {
+    Char::normalize(AsciiChar(c), config).0
+}
+/// `Config::bonus_for` on class ids
+pub fn bonus_for(config: &Config, prev: u8, class: u8) -> u16 {
+    config.bonus_for(class_from_id(prev), class_from_id(class))
+}
+/// private configuration fields: delimiters, whitespace bonus, delimiter bonus, initial class
+pub fn config_fields(config: &Config) -> (Vec<u8>, u16, u16, u8) {
+    (
+        config.delimiter_chars.to_vec(),
+        config.bonus_boundary_white,
+        config.bonus_boundary_delimiter,
+        config.initial_char_class as u8,
+    )
+}
+/// The scoring constants in declaration order
+pub fn score_constants() -> [u16; 9] {
+    use crate::score::*;
+    [
+        SCORE_MATCH,
+        PENALTY_GAP_START,
+        PENALTY_GAP_EXTENSION,
+        PREFIX_BONUS_SCALE,
+        MAX_PREFIX_BONUS,
+        BONUS_BOUNDARY,
+        BONUS_CAMEL123,
+        BONUS_CONSECUTIVE,
+        BONUS_FIRST_CHAR_MULTIPLIER,
+    ]
+}
+
+/// Byte offset and byte length (relative to the slab start) of the five views
+/// `MatrixSlab::alloc` hands out for the given sizes, together with the size of
+/// the computed layout and of the slab allocation. `None` if `alloc` would refuse.
+pub fn layout_views(
+    haystack_len: usize,
+    needle_len: usize,
+    ascii: bool,
+) -> Option<MatrixLayoutInfo> {
+    if ascii {
+        matrix::layout_info::<AsciiChar>(haystack_len, needle_len)
+    } else {
+        matrix::layout_info::<char>(haystack_len, needle_len)
+    }
+}
